@@ -183,8 +183,24 @@ func genCreateBatch(w *World) sdk.Msg {
 			holder = pickOf(w, "issuer", is)
 		}
 	}
-	issuer := w.roleSigner("issuer", holder)
 	s, e := w.StartEnd("dates")
+	// issue again what a discarded transaction issued: same project, same dates (and, the sequence having been
+	// rolled back, the same denom) — normally under another table key, other batches having been issued since
+	if len(w.phBatchInfo) > 0 && !w.inBranch && w.intn("?reissue", 6) == 5 {
+		pb := pickOf(w, "reissue", w.phBatchInfo)
+		for _, p := range w.S.Projects {
+			if p.Id == pb.ProjectID {
+				st, en := pb.Start, pb.End
+				pid, prj, s, e = p.Id, p, &st, &en
+				holder = nil
+				if is := w.issuersOf(p.ClassKey); len(is) > 0 {
+					holder = pickOf(w, "reissuer", is)
+				}
+				w.Flags["reissue-of-discarded-batch"] = true
+			}
+		}
+	}
+	issuer := w.roleSigner("issuer", holder)
 	m := &basetypes.MsgCreateBatch{
 		Issuer:    w.AddrStr("issuerstr", issuer),
 		ProjectId: pid,
